@@ -349,3 +349,27 @@ int bad_err_sign__dec(uint8_t *out, size_t *out_len, uint8_t *in, size_t in_len)
 	*out_len = pad_len;
 	return RLC_OK;
 }
+
+/* ------------------------------------------------------------------ FINAL-PAD */
+typedef struct { uint32_t h[8]; uint8_t buf[64]; size_t buflen; } st14_b2s;
+void st14_blake2s_compress(st14_b2s *S, const uint8_t *in);
+
+int ok_pad__blake2s_final(st14_b2s *S, void *out, size_t outlen) {
+	if (out == NULL) {
+		return -1;
+	}
+	memset(S->buf + S->buflen, 0, 64 - S->buflen);
+	st14_blake2s_compress(S, S->buf);
+	memcpy(out, S->h, outlen);
+	return 0;
+}
+
+/* "init0 already zeroed the buffer": true for the first block only */
+int bad_final_pad__blake2s_final(st14_b2s *S, void *out, size_t outlen) {
+	if (out == NULL) {
+		return -1;
+	}
+	st14_blake2s_compress(S, S->buf);
+	memcpy(out, S->h, outlen);
+	return 0;
+}
